@@ -387,4 +387,7 @@ def harnesses(tier):
         ("H1u.unitary", h1u_unitary, h1u_cases(tier)),
         ("H2.program", h2_program, h2_cases(tier)),
         ("H3.ranges", h3_ranges, h3_cases(tier)),
+        # the same identities once more with z3 deciding the un-normalised expressions
+        ("H1u.unitary.raw", h1u_unitary, h1u_cases(tier), dict(raw=True)),
+        ("H1.step.raw", h1_step, [c for c in h1_cases(tier) if c["n"] == 2 or tier != "quick"], dict(raw=True)),
     ]
